@@ -70,7 +70,7 @@ pub fn run_c06(ctx: &mut Ctx) {
     let learned = Profile { fast_responses: true, silence_pm: 450, ..p.clone() };
     let n = ctx.n(25_000, 2_500_000);
     ctx.cases("histories", n, |ctx, case, rng| {
-        let mech = if rng.chance(1, 4) { Mech::ShortTerm(None) } else { Mech::None };
+        let mech = match rng.below(8) { 0 | 1 => Mech::ShortTerm(None), 2 => Mech::LongTerm, _ => Mech::None };
         let mut cfg = gen_cfg(rng, Some(mech), &[10]);
         if rng.chance(3, 4) {
             cfg.reliable = None;
@@ -149,7 +149,7 @@ pub fn run_c11(ctx: &mut Ctx) {
     };
     let n = ctx.n(25_000, 2_500_000);
     ctx.cases("histories", n, |ctx, case, rng| {
-        let mech = if rng.chance(1, 3) { Mech::ShortTerm(None) } else { Mech::None };
+        let mech = match rng.below(6) { 0 | 1 => Mech::ShortTerm(None), 2 => Mech::LongTerm, _ => Mech::None };
         let cfg = gen_cfg(rng, Some(mech), &[10, 4]);
         if let Some(sim) = run_history(ctx, rng, cfg, &p) {
             let nontrivial = sim.txs.len() >= 2;
